@@ -37,6 +37,7 @@ START = {
     "ScipyGamma": dict(a=2.0, loc=0.1, scale=1.8),
     "ScipyRayleigh": dict(loc=0.1, scale=2.2),
     "ScipyBeta": dict(a=1.7, b=2.8, loc=0.05, scale=4.6),
+    "ScipyVonMises": dict(kappa=1.5, loc=0.1, scale=1.2),
 }
 FIXED = {
     "Weibull": dict(alpha=1.35, beta=1.6, gamma=0.37),
@@ -49,6 +50,7 @@ FIXED = {
     "ScipyGamma": dict(a=2.8, loc=0.28, scale=1.5),
     "ScipyRayleigh": dict(loc=0.23, scale=1.9),
     "ScipyBeta": dict(a=2.2, b=3.3, loc=0.13, scale=4.3),
+    "ScipyVonMises": dict(kappa=2.5, loc=0.42, scale=1.3),      # scale != 1: scipy's fit returns 1
 }
 
 
@@ -70,6 +72,10 @@ def special_value(fam, n, kind):
         return NEG[(fam, n)]
     if kind == "wrap":
         return 4.0                       # outside [-pi, pi]
+    if kind == "tiny":
+        return 1e-9                      # log(exp(1e-9)) differs from 1e-9 by 8e-8 relative
+    if kind == "huge":
+        return 25.0
     if kind == "int":
         return INT.get((fam, n), max(1, int(round(truth))))
     if kind == "far":
@@ -83,8 +89,16 @@ def special_value(fam, n, kind):
 def fixed_for(case):
     """name -> declared fixed value of a case"""
     fam = case["fam"]
-    if case.get("special", "regular") != "regular":
-        return {case["sname"]: special_value(fam, case["sname"], case["special"])}
+    special = case.get("special", "regular")
+    if fam == "ScipyVonMises":           # VmSubCases: F as given; "wrap": f_loc = 4.0
+        fx = {n: FIXED[fam][n] for n in case["F"]}
+        if special == "wrap":
+            fx["loc"] = 4.0
+        return fx
+    if special == "none":                # f_<sname> = None passed explicitly: nothing fixed
+        return {}
+    if special != "regular":
+        return {case["sname"]: special_value(fam, case["sname"], special)}
     return {n: FIXED[fam][n] for n in case["F"]}
 
 
@@ -112,6 +126,8 @@ def own_data(fam, n, rng, par=None):
         return rs.gamma(p["m"], size=n) ** (1 / p["c"]) / p["lambda_"]
     if fam == "VonMises":
         return rs.vonmises(p["mu"], p["kappa"], size=n)
+    if fam == "ScipyVonMises":
+        return rs.vonmises(p["loc"], p["kappa"], size=n)
     if fam == "NormFit":
         s2 = np.log(1 + (p["sigma_norm"] / p["mu_norm"]) ** 2)
         return np.exp(np.log(p["mu_norm"]) - s2 / 2 + np.sqrt(s2) * rs.standard_normal(n))
@@ -139,7 +155,7 @@ def other_data(fam, n, rng):
         return ln(0.6, 0.45)
     if fam == "GenGamma":
         return ln(0.5, 0.5)
-    if fam == "VonMises":
+    if fam in ("VonMises", "ScipyVonMises"):
         return 0.3 + 0.7 * rs.standard_normal(n)
     if fam == "NormFit":
         return 0.05 + wb(2.5, 1.8)
@@ -181,7 +197,10 @@ def fit_record(vc, rid, case, seed=0):
     start = start_for(case)
     names = D.NAMES[fam]
     free = [n for n in names if n not in F]
-    rec = dict(id=rid, kind="fit" if special == "regular" else "fitspecial", special=special,
+    kind = ("fitvm" if fam == "ScipyVonMises" else "fitnone" if special == "none"
+            else "fit" if special == "regular" else "fitspecial")
+    none_kw = {case["sname"]: None} if special == "none" else {}
+    rec = dict(id=rid, kind=kind, special=special,
                sname=case.get("sname", "none"), fam=fam, F=F, fitm=fitm, data=dk, variant=variant, exc="",
                cdev=BIG, fattr=False, evalsame=False, evalkeep=False,
                outcome1="none", fdev1=BIG, free1changed=False, free1finite=False,
@@ -190,7 +209,7 @@ def fit_record(vc, rid, case, seed=0):
     n = [400, 250, 900, 400][variant % 4]
     gen = own_data if dk == "own" else other_data
     if special == "wrap":     # directions centred at the fixed value 4.0 rad (scipy/numpy return them in [-pi, pi])
-        gen = lambda f, m, r: own_data(f, m, r, dict(D.STORED[f], mu=4.0))
+        gen = lambda f, m, r: own_data(f, m, r, dict(D.STORED[f], **{"loc" if f == "ScipyVonMises" else "mu": 4.0}))
     data1, data2 = gen(fam, n, rng), gen(fam, n, rng)
     weights = "quadratic" if fitm == "wlsq" else None
     with warnings.catch_warnings(), np.errstate(all="ignore"):
@@ -198,7 +217,7 @@ def fit_record(vc, rid, case, seed=0):
         try:
             # NewDist, in every keyword order (plain values first / f_ values first / plain values
             # positionally + f_ keywords); the first one goes on through the life cycle
-            objs = [D.build(vc, fam, start, fixed=fx, order=o) for o in ORDERS]
+            objs = [D.build(vc, fam, start, fixed=dict(fx, **none_kw), order=o) for o in ORDERS]
             dist = objs[0]
             rec["cdev"] = Qc(max(reldev(o, F, fx) for o in objs), 1e15, 0, BIG)
             ok_attr = all(fattr_ok(o, fam, fx) for o in objs)
@@ -242,6 +261,10 @@ def fit_record(vc, rid, case, seed=0):
 
 
 def fit_key(c):
+    if c["fam"] == "ScipyVonMises":
+        return f"ScipyVonMises fixed={'+'.join(c['F'])}({c.get('special')}) method={c['fitm']} data={c['data']}"
+    if c.get("special") == "none":
+        return f"{c['fam']} f_{c['sname']}=None method={c['fitm']} data={c['data']}"
     if c.get("special", "regular") != "regular":
         return (f"{c['fam']} fixed={c['sname']}={special_value(c['fam'], c['sname'], c['special'])!r}"
                 f"({c['special']}) method={c['fitm']} data={c['data']}")
@@ -278,7 +301,7 @@ def condfix_record(vc, rid, case, seed=0):
     fam, F = case["fam"], list(case["F"])
     names = D.NAMES[fam]
     dep = [n for n in names if n not in F]
-    rec = dict(id=rid, kind="condfix", fam=fam, F=F, exc="", preok=False, postok=False, fitdev=BIG,
+    rec = dict(id=rid, kind="condfix", fam=fam, F=F, exc="", preok=False, postok=False, defsame=False, fitdev=BIG,
                nint=0, ngiven=0)
     rng = np.random.default_rng([seed, 77, sum(map(ord, fam + "".join(F)))])
     givens = [0.7, 1.9, 3.2, np.array([0.7, 1.9, 3.2, 1.9]), np.array([2.5]),
@@ -319,7 +342,19 @@ def condfix_record(vc, rid, case, seed=0):
                     lk = "gamma" if fam == "Weibull" else "loc"
                     par[lk] = D.STORED[fam][lk]
                 intervals.append(own_data(fam, 300, rng, par))
-            cond.fit(intervals, cvals, [(0.5, 1.5), (1.5, 2.5), (2.5, 3.5)], method="mle")
+            bounds = [(0.5, 1.5), (1.5, 2.5), (2.5, 3.5)]
+            cond.fit(intervals, cvals, bounds)            # method=None: "defaults to the distribution's default"
+            # a second, identical conditional fitted with the default named explicitly
+            deps2 = {}
+            for n in dep:
+                f2 = vc.DependenceFunction(_lin)
+                f2.parameters = {"a": D.STORED[fam][n], "b": 0.02 * D.STORED[fam][n]}
+                deps2[n] = f2
+            cond2 = vc.distributions.ConditionalDistribution(
+                D.build(vc, fam, {}, fixed={k: FIXED[fam][k] for k in F}), deps2)
+            cond2.fit([d.copy() for d in intervals], cvals, bounds, method="mle")
+            rec["defsame"] = ([{k: repr(float(v)) for k, v in p_.items()} for p_ in cond.parameters_per_interval]
+                              == [{k: repr(float(v)) for k, v in p_.items()} for p_ in cond2.parameters_per_interval])
             worst = 0.0
             for d_i, p_i in zip(cond.distributions_per_interval, cond.parameters_per_interval):
                 worst = max(worst, reldev(d_i, F, FIXED[fam]))
@@ -419,6 +454,7 @@ def selftest(ctx, frec, crec):
             (frec, "FreeEstimated", dict(free1changed=False)),
             (frec, "CaseOrderIndependent", dict(ordsame=False)),
             (crec, "FixedSameForAllGiven", dict(postok=False)),
+            (crec, "DefaultFitMethod", dict(defsame=False)),
             (crec, "FixedStableInIntervals", dict(fitdev=5000))):
         r = copy.deepcopy(base)
         r.update(chg)
@@ -438,7 +474,9 @@ def run(ctx):
                 "mle/lsq/wlsq, data from the own / another family); each is run on the real class as construct(start "
                 "values + f_<n>, in three argument orders) -> evaluate (all three) -> fit -> re-fit (thorough: 8 variants with other seeds and sample sizes); plus "
                 "every (family, parameter, special fixed value kind: 0.0 / int 0 / -0.0 / negative / outside [-pi,pi] / "
-                "integer-typed / far from the data) with MLE; every life cycle is also run at two positions of two "
+                "integer-typed / far from the data / 1e-9 and 25 for the log-normal mu) with MLE; a ScipyDistribution subclass of "
+                "scipy's vonmises with f_scale (and f_loc incl. 4.0, f_kappa); every (family, name) with f_<name>=None "
+                "passed explicitly; ConditionalDistribution.fit without method against method='mle'; every life cycle is also run at two positions of two "
                 "seeded shuffled sequential runs in one process and must reproduce outcomes and fitted parameters bit "
                 "for bit; "
                 "plus every (family, non-empty proper F) as a ConditionalDistribution with the other parameters "
@@ -459,6 +497,8 @@ def run(ctx):
     ctx.model_check("ParamRouting", "MC_ParamRouting_fit_mut_overwrite.cfg", expect_violation="FixedStable")
     ctx.model_check("ParamRouting", "MC_ParamRouting_fit_mut_falsy.cfg", expect_violation="FixedHonoured")
     ctx.model_check("ParamRouting", "MC_ParamRouting_fit_mut_wrap.cfg", expect_violation="FixedHonoured")
+    ctx.model_check("ParamRouting", "MC_ParamRouting_fit_mut_wrapscipy.cfg", expect_violation="FixedHonoured")
+    ctx.model_check("ParamRouting", "MC_ParamRouting_fit_mut_none.cfg", expect_violation="EvalUsesPar")
     ctx.model_check("ParamRouting", "MC_ParamRouting_cond_quick.cfg", must_cover=("CondCall",))
     ctx.model_check("ParamRoutingHist", ctx.pick("MC_ParamRoutingHist_quick.cfg", "MC_ParamRoutingHist_thorough.cfg"),
                     must_cover=("New", "EvalKw", "Fit"))
